@@ -80,6 +80,8 @@ def source(e, n):
     if op == "add":
         pair = f"{ksrc(e['k'], computed=(n % 2 == 1))},,{ksrc(e['v'])}"
         return f"{e['var']},{pair}" if e["side"] == "right" else f"({pair}),{e['var']}"
+    if op == "addbad":
+        return f"{e['var']},,{ksrc(e['k'])}"
     if op == "find":
         return f"{e['var']}?{ksrc(e['k'], computed=(n % 2 == 1))}"
     if op == "remove":
